@@ -25,6 +25,8 @@ def plan(tier, seed):
     specs.append({"name": "wide-parameters", "kind": "wide", "budget_s": 100 if tier == "quick" else 600})
     # values that are random in the library (PRF outputs, os.urandom draws) and values the caller chooses (keywords,
     # identifiers) forced to begin / end with byte patterns that content-sniffing code keys on (instrument.Steer)
+    specs.append({"name": "real-server-many-services", "kind": "many_services", "services": 27 if tier == "quick" else 150,
+                  "budget_s": 200})
     for j in range(3 if tier == "quick" else 6):
         specs.append({"name": f"steered-values-{j}", "kind": "steered", "index": j, "of": 3 if tier == "quick" else 6,
                       "budget_s": 14 if tier == "quick" else 240})
@@ -229,7 +231,95 @@ def run_case(scheme, cid, cfg, cls, db, acc, rng, wire_log=None, extra_case=None
     return True
 
 
+async def many_services(spec, acc, ctx):
+    """The real server (started through its own run_server) holding MANY services at once - more than any pool of
+    decoded objects - sees only bytes: JSON configuration, serialized index, serialized tokens (raw protocol client).
+    Every service is searched, then all of them again in another order, each search on a connection of its own."""
+    import asyncio
+    import pickle
+    from vlib import wsharness as wh
+    rng = ctx.rng
+    wh.setup_env()
+    server = await wh.Server().start()
+    services = []
+    n = spec["services"]
+    try:
+        for i in range(n):
+            scheme = gen.SCHEMES[i % len(gen.SCHEMES)]
+            cfg = gen.default_config(scheme)
+            if scheme == "CGKO06.SSE1":
+                cfg.update(param_s=64, param_dictionary_size=16)
+            db, info = gen.db_from_lens(rng, scheme, cfg, [rng.randint(1, 4) for _ in range(rng.randint(2, 4))], "many-services")
+            if scheme == "CGKO06.SSE2":
+                cfg["param_n"] = len({x for v in db.values() for x in v}) + 1
+            L = sse.loader(scheme)
+            sch = L.SSEScheme(copy.deepcopy(cfg))
+            key = sch.KeyGen()
+            edb_bytes = sch.EDBSetup(key, copy.deepcopy(db)).serialize()
+            sid = "%064x" % rng.getrandbits(255)
+            conn = await wh.RawConn(server.uri, sid).open()
+            ok = True
+            for mtype, content in (("config", pickle.dumps(dict(cfg, salt="%032x" % rng.getrandbits(120)))),
+                                   ("upload_edb", edb_bytes)):
+                await conn.send(mtype, content)
+                ev = await conn.next_event(8)
+                if ev[0] != "msg" or wh.decode_reply(ev[1])[1] != "ok":
+                    acc.violation(f"{gen.SHORT[scheme]}:real-server:{mtype}-not-acknowledged",
+                                  f"service #{i} ({scheme}): the server did not acknowledge {mtype}: {ev!r:.100}",
+                                  {"scheme": scheme, "many_services": True})
+                    ok = False
+                    break
+            await conn.close()
+            await wh.settle(20)
+            if ok:
+                services.append((sid, scheme, L, L.SSEConfig(json.loads(json.dumps(cfg))), sch, key, db))
+        acc.count("many_services.services_uploaded", len(services))
+        order = list(range(len(services)))
+        for rnd in range(3):
+            if rnd:
+                rng.shuffle(order)
+            for i in order:
+                sid, scheme, L, cobj, sch, key, db = services[i]
+                short = gen.SHORT[scheme]
+                conn = await wh.RawConn(server.uri, sid).open()
+                for w in (rng.choice(sorted(db)), b"no-such-kw"):
+                    tok = sch.TokenGen(key, w).serialize()
+                    await conn.send("token", tok, token_digest=b"d")
+                    ev = await conn.next_event(8)
+                    acc.count("many_services.searches")
+                    acc.count("pipeline.searches")
+                    case = {"scheme": scheme, "many_services": True, "services_on_the_server": len(services), "round": rnd}
+                    if ev[0] != "msg" or ev[1].get("type") != "result":
+                        acc.violation(f"{short}:real-server:no-result", f"service #{i} of {len(services)} on one server "
+                                      f"(round {rnd + 1}): no result message: {ev!r:.100}", case)
+                        break
+                    try:
+                        got = L.SSEResult.deserialize(ev[1]["content"], cobj).get_result_list()
+                    except Exception as e:
+                        acc.violation(f"{short}:real-server:result-unreadable:{exc_site(e)}", f"{type(e).__name__}: {e}", case)
+                        break
+                    if not sse.result_matches(scheme, got, db.get(w, [])):
+                        acc.violation(f"{short}:real-server:wrong-result",
+                                      f"{scheme}: service #{i} of {len(services)} held by one server process (round {rnd + 1}): "
+                                      f"the server returned {len(got)} ids for a keyword with {len(db.get(w, []))} postings",
+                                      case)
+                        break
+                await conn.close()
+                await wh.settle(20)
+        acc.count("cases", len(services))
+        acc.add("distinct", "many-services")
+    except wh.Timeout:
+        acc.count("many_services.timeouts")
+        acc.note("many-services: the server did not answer in time")
+    finally:
+        await server.stop()
+
+
 def run_shard(spec, acc, ctx):
+    if spec.get("kind") == "many_services":
+        import asyncio
+        asyncio.run(many_services(spec, acc, ctx))
+        return
     if spec.get("kind") == "wide":
         run_wide(spec, acc, ctx)
         return
@@ -252,6 +342,11 @@ def run_shard(spec, acc, ctx):
 
 
 def replay(case, acc, ctx):
+    if case.get("many_services"):
+        import asyncio
+        asyncio.run(many_services({"services": max(27, int(case.get("services_on_the_server", 27)))}, acc, ctx))
+        acc.count("replayed")
+        return
     if case.get("steered"):
         # forced values are drawn anew (keys are random in the library): repeat the case under Steer
         from vlib.instrument import Steer
@@ -284,6 +379,8 @@ def finish(m, tier, seed):
                 inc.append(f"{short}: only {per[short][k]} {k} round-trips")
         if per[short]["configurations"] < 3:
             inc.append(f"{short}: fewer than 3 distinct configurations")
+    if c.get("many_services.searches", 0) < 100:
+        inc.append("the real server with many services answered fewer than 100 searches")
     if c.get("steered.forced_value_seen_on_the_wire", 0) < 30:
         inc.append("fewer than 30 forced values were observed in serialized keys, tokens or indexes")
     if c.get("setup_failed", 0) > 0.2 * max(1, c.get("cases", 0)):
@@ -300,6 +397,7 @@ def finish(m, tier, seed):
         "per_scheme": per,
         "pipeline_searches": c.get("pipeline.searches", 0),
         "wide_parameter_cases": c.get("wide.cases", 0),
+        "real_server_holding_many_services": {k[14:]: v for k, v in c.items() if k.startswith("many_services.")},
         "steered": {k[8:]: v for k, v in c.items() if k.startswith("steered.")},
         "steered_patterns_seen_on_the_wire": len(m["sets"].get("steered.patterns_on_the_wire", [])),
         "setup_failed": c.get("setup_failed", 0),
